@@ -3,7 +3,7 @@
 
 use crate::gen::{Entry, Pool};
 use crate::oracle::{isolated_many, Iso};
-use crate::proc::{self, Exit, SharedFlag};
+use crate::proc::{self, Exit};
 use crate::sim::{self, Policy, RunSpec, Sw};
 use crate::types::*;
 use serde_json::{json, Value};
@@ -271,18 +271,17 @@ pub fn run_cases(cases: &[Case], oc: &mut OracleCache, workers: usize, timeout: 
     let mats: Vec<Option<(Pool, RunSpec)>> = cases.iter().map(|c| materialise(c, oc)).collect();
     let mut out: Vec<Option<RunResult>> = vec![None; cases.len()];
     let live: Vec<usize> = (0..cases.len()).filter(|i| mats[*i].is_some()).collect();
-    let stop = SharedFlag::new();
-    proc::par_map(
+    proc::zmap(
         live.len(),
         workers,
         timeout,
         None,
-        &stop,
-        |k| {
+        &mut || true,
+        &mut |k| {
             let (pool, spec) = mats[live[k]].as_ref().unwrap();
-            sim::run_child(pool, spec)
+            Some(crate::wire::encode_run(pool, spec))
         },
-        |k, bytes, exit| {
+        &mut |k, bytes, exit| {
             out[live[k]] = Some(classify(&bytes, exit));
         },
     );
